@@ -286,10 +286,8 @@ def sigma_filter(filename, region, step_size, box_size, shape, domask,
     logging.debug(" ... done writing bkg")
 
     # wait for all to complete
-    i = barrier.wait()
+    barrier.wait()
     _verif_point('after_barrier1', region)
-    if i == 0:
-        barrier.reset()
 
     logging.debug("background subtraction")
     data[0 + ymin - data_row_min: data.shape[0] -
@@ -318,10 +316,8 @@ def sigma_filter(filename, region, step_size, box_size, shape, domask,
 
     if domask:
         # wait for all to complete
-        i = barrier.wait()
+        barrier.wait()
         _verif_point('after_barrier2', region)
-        if i == 0:
-            barrier.reset()
 
         logging.debug("applying mask")
         mask = ~np.isfinite(
